@@ -124,7 +124,13 @@ def k14_merge(ctx) -> None:
                           "representative, which stops being one")
     else:
         moved = [c for c in walk_local(f) if isinstance(c, ast.Call) and norm(c.func) in ("self.verified_roots.add", "self.set_verified")]
-        if moved:
+        lazy = [n for n in walk_local(f) if isinstance(n, (ast.GeneratorExp,)) or (isinstance(n, ast.Call) and norm(n.func) in ("map", "filter"))
+                if any(isinstance(c, ast.Call) and norm(c.func) == "self.is_verified" for c in ast.walk(n)) or "self.is_verified" in norm(n)]
+        lazy = [n for n in lazy if isinstance(C.stmt_of(n), (ast.Assign, ast.AnnAssign))]
+        if lazy:
+            ctx.violation("K14", lazy[0], f"the verified flags are read through `{norm(lazy[0])[:60]}`, which is evaluated only when it is consumed -- after the roots were linked: "
+                          "is_verified then asks the new representative, and the mark of the absorbed class is lost")
+        elif moved:
             raise AnalysisError("K14: _set_equivalent carries the verified flag in an arrangement the analysis does not know; re-derive the rule")
         ctx.violation("K14", f, "_set_equivalent no longer carries the verified flag over a merge: a class verified before being merged into a heavier one is "
                       "reported unverified afterwards", construct=f"{DB}._set_equivalent verified flag")
@@ -166,6 +172,7 @@ def k15_edges(ctx) -> None:
 
 
 def k16_connect_cycles(ctx) -> None:
+    k16b_visited_when_expanded(ctx)
     """Only vertices on a detected cycle are merged: the merge loop runs over path[i:] where
     path[i] is already equivalent to the vertex the edge leads to."""
     P = ctx.P
@@ -215,6 +222,37 @@ def _t(text: str):
         return ast.parse(text, mode="eval").body
     except SyntaxError:
         return ast.Constant(value=None)
+
+
+def k16b_visited_when_expanded(ctx) -> None:
+    """connect_cycles is a depth-first search over paths: a vertex is marked visited when its
+    path is taken from the stack and expanded.  Marked when it is *pushed*, a vertex reached
+    first along a path that does not close a cycle is never reached along the one that does."""
+    P = ctx.P
+    m = P.need_method(DB, "connect_cycles", own=True)
+    f = m.node
+    ctx.analysed(m)
+    nb = [l for l in walk_local(f) if isinstance(l, ast.For) and isinstance(l.target, ast.Name) and isinstance(l.iter, ast.Subscript)
+          and "one_way" in norm(D.expanded(f, l.iter.value))]
+    if not nb:
+        raise AnalysisError("K16: connect_cycles no longer walks the one-way neighbours of the end of a path")
+    lp = nb[0]
+    v = lp.target.id
+    adds = [c for c in walk_local(f) if isinstance(c, ast.Call) and isinstance(c.func, ast.Attribute) and c.func.attr == "add" and isinstance(c.func.value, ast.Name)
+            and "visit" in c.func.value.id]
+    bad = [c for c in adds if any(c is x for x in ast.walk(lp)) and c.args and norm(D.expanded(f, c.args[0])) == v]
+    for c in bad:
+        ctx.violation("K16", c, f"`{norm(c)}` marks a neighbour as visited when it is pushed: if it is first reached along a path that closes no cycle, the path that does "
+                      "close one is never followed, and the classes on it stay apart")
+    skips = [n for n in walk_local(f) if isinstance(n, ast.Continue) and not any(n is x for x in ast.walk(lp))
+             and any(p and " in " in t and "visit" in t and "not in" not in t for t, p in C.guard_texts(f, n))]
+    unconditional = [n for n in skips if all(("len(" not in t) for t, p in C.guard_texts(f, n))]
+    if not bad:
+        if unconditional:
+            ctx.ok("K16", "a path is skipped when its end was already expanded; vertices are marked when expanded")
+        else:
+            ctx.violation("K16", lp, "connect_cycles no longer skips (unconditionally) a popped path whose end was already expanded: with marks made elsewhere the search "
+                          "either repeats work without bound or misses paths", construct=f"{DB}.connect_cycles visited skip")
 
 
 def k17_find_path(ctx) -> None:
